@@ -19,6 +19,8 @@ MUTANTS = [
      "edits": [(B, "        poll_height(Arc::clone(&self.current_height), Arc::clone(&self.rpc)).await?;", "        let _ = poll_height(Arc::clone(&self.current_height), Arc::clone(&self.rpc)).await;")]},
     {"name": "poll-only-once", "expect": ["C20-L"],
      "edits": [(B, "            _ = shutdown.recv() => return\n        }", "            _ = shutdown.recv() => return\n        }\n        if *current_height.lock().await > 0 { let _ = shutdown.recv().await; return; }")]},
+    {"name": "poll-interval-61s", "expect": ["C20-L"],
+     "edits": [(B, "Duration::from_secs(60)", "Duration::new(61, 0)")]},
     {"name": "current-height-minus-one", "expect": ["C20-S"],
      "edits": [(B, "        *self.current_height.lock().await\n", "        self.current_height.lock().await.saturating_sub(1)\n")]},
 ]
@@ -26,4 +28,6 @@ EQUIV = [
     {"name": "eq-max-idiom", "edits": [(B, "    let updated = if new_height > *current_height {\n        *current_height = new_height;\n        Some(*current_height)\n    } else {\n        None\n    };", "    let old = *current_height;\n    *current_height = std::cmp::max(*current_height, new_height);\n    let updated = if *current_height != old { Some(*current_height) } else { None };")]},
     {"name": "eq-lt-flipped", "edits": [(B, "if new_height > *current_height {", "if *current_height < new_height {")]},
     {"name": "eq-poll-interval-30", "edits": [(B, "Duration::from_secs(60)", "Duration::from_secs(30)")]},
+    {"name": "eq-poll-interval-new", "edits": [(B, "Duration::from_secs(60)", "Duration::new(60, 0)")]},
+    {"name": "eq-poll-interval-millis-product", "edits": [(B, "Duration::from_secs(60)", "Duration::from_millis(60 * 1000)")]},
 ]
